@@ -12,7 +12,7 @@ def main():
     ck = Check("C13", "other")
     ck.lean_stage(["VelaVerif.Props.C13"])
     n = 8000 if ck.thorough else 640
-    profiles = ["weird", "mixed", "cpu", "weird", "lut", "elementwise", "weights", "cascade", "weird", "mixed"]
+    profiles = ["weird", "mixed", "cpu", "pattern", "lut", "elementwise", "weights", "cascade", "weird", "pattern"]
     outs = pipe_common.run_corpus(ck, n, profiles=profiles, want={"more_opts": True}, corpus_first=False)
     reqs = []
     for o in outs:
